@@ -156,7 +156,13 @@ fn visit(kind: &str, rt: &tokio::runtime::Runtime, port: u16, dest_port: u16) ->
 }
 
 /// expectations that do not need the model: what the client must see
-fn expected(kind: &str, rules_on: bool, outcome: &Result<String, String>) -> bool {
+fn expected(kind: &str, rules_on: bool, protos: &str, outcome: &Result<String, String>) -> bool {
+    // a client that offers only a protocol the listener does not enable is not served at all
+    let offered = match kind { "tunnel-h1" => "h1", "tunnel-h2" | "ping-h2" | "tunnel-h2-refused" | "denied-source" | "fragmented-hello" | "v6-loopback" => "h2", _ => "" };
+    if !offered.is_empty() && !protos.contains(offered) {
+        // (the session clients report the failed handshake as an error, the handshake-only clients as "refused")
+        return outcome.as_deref() == Ok("refused") || (outcome.is_err() && (kind.starts_with("tunnel-") || kind == "ping-h2"));
+    }
     match kind {
         "tunnel-h2" | "tunnel-h1" | "ping-h2" => outcome.as_deref() == Ok("200"),
         "tunnel-h2-refused" => outcome.as_deref() == Ok("502"),
@@ -201,6 +207,8 @@ fn main() {
     let trace_path = arg("--trace").expect("--trace");
     let rounds: usize = arg_or("--rounds", "3").parse().unwrap();
     let waves: usize = arg_or("--waves", "6").parse().unwrap();
+    // which listener configurations: "all", "subsets" (one TCP protocol enabled) or "full" (both)
+    let which = arg_or("--configs", "all");
     let width: usize = arg_or("--width", "3").parse().unwrap();
     let mut trace_n = arg("--trace-n").map(|p| std::io::BufWriter::new(std::fs::File::create(p).unwrap()));
     let mut rep = Report::new("ep");
@@ -224,13 +232,17 @@ fn main() {
     });
     let pem = fixture("localhost.pem");
 
-    for (rules_on, dual) in [(true, false), (false, false), (true, true)] {
+    // the last two: listeners that enable one TCP protocol only (C05: "the listener enables", all subsets)
+    for (rules_on, dual, protos) in [(true, false, "h1h2"), (false, false, "h1h2"), (true, true, "h1h2"), (false, false, "h2"), (false, false, "h1")] {
+        if (which == "subsets") != (protos != "h1h2") && which != "all" { continue; }
+        let (rounds, trace_n) = if protos == "h1h2" { (rounds, trace_n.as_mut()) } else { (1, None) };
+        let mut trace_n = trace_n;
         let pem2 = pem.clone();
         let (_core, port, listen) = start_listening_core(&server_rt, move |port| {
             let host = |name: &str| TlsHostInfo { hostname: name.to_string(), cert_chain_path: pem2.clone(), private_key_path: pem2.clone(), allowed_sni: vec![] };
             let mut b = Settings::builder()
                 .listen_address(if dual { format!("[::]:{}", port) } else { format!("127.0.0.1:{}", port) }).unwrap()
-                .listen_protocols(ListenProtocolSettings { http1: Some(Http1Settings::builder().build()), http2: Some(Http2Settings::builder().build()), quic: None })
+                .listen_protocols(ListenProtocolSettings { http1: protos.contains("h1").then(|| Http1Settings::builder().build()), http2: protos.contains("h2").then(|| Http2Settings::builder().build()), quic: None })
                 .allow_private_network_connections(true)
                 .clients(vec![trusttunnel::authentication::registry_based::Client { username: "alice".into(), password: "S3cretAlicePw".into() }])
                 .tls_handshake_timeout(Duration::from_secs(2));
@@ -250,16 +262,16 @@ fn main() {
         verif::start_recording();
         // the builder always installs a rules engine (default: allow all); `rules_on` only adds deny rules
         let canon = if dual { "{\"::ffff:127.0.0.1\":\"127.0.0.1\",\"::ffff:127.0.0.70\":\"127.0.0.70\",\"::1\":\"::1\"}" } else { "{\"127.0.0.1\":\"127.0.0.1\",\"127.0.0.70\":\"127.0.0.70\"}" };
-        verif::emit("Config", format_args!("\"rules\":true,\"deny_rules\":{},\"dual\":{},\"canon\":{}", rules_on, dual, canon));
+        verif::emit("Config", format_args!("\"rules\":true,\"deny_rules\":{},\"dual\":{},\"protos\":{},\"canon\":{}", rules_on, dual, if protos == "h1h2" { "[\"HTTP1\",\"HTTP2\"]" } else if protos == "h2" { "[\"HTTP2\"]" } else { "[\"HTTP1\"]" }, canon));
         let mut kinds: Vec<&'static str> = vec!["tunnel-h2", "tunnel-h1", "ping-h2", "unknown-sni", "h3-only", "denied-source", "silent", "garbage", "tunnel-h2-refused", "fragmented-hello"];
         if dual { kinds.push("v6-loopback"); }
         let mut order: Vec<&str> = vec![];
         for _ in 0..rounds { let mut k = kinds.clone(); for i in (1..k.len()).rev() { k.swap(i, rng.gen_range(0..=i)); } order.extend(k); }
         for kind in order {
             rep.eval();
-            rep.nontrivial(format!("{}|{}|{}", rules_on, dual, kind));
+            rep.nontrivial(format!("{}|{}|{}|{}", rules_on, dual, protos, kind));
             let outcome = visit(kind, &client_rt, port, dest_port);
-            let expect_ok = expected(kind, rules_on, &outcome);
+            let expect_ok = expected(kind, rules_on, protos, &outcome);
             if !expect_ok {
                 rep.violation_with(format!("endpoint:client-view:{}:{}{}", kind, if rules_on { "rules" } else { "norules" }, if dual { ":dual" } else { "" }), format!("client saw {:?}", outcome), || json!({"kind": kind, "rules": rules_on, "dual": dual}));
             }
@@ -281,7 +293,7 @@ fn main() {
         if let Some(tn) = trace_n.as_mut() {
             verif::start_recording();
             section = 0;
-            verif::emit("Config", format_args!("\"rules\":true,\"deny_rules\":{},\"dual\":{},\"canon\":{}", rules_on, dual, canon));
+            verif::emit("Config", format_args!("\"rules\":true,\"deny_rules\":{},\"dual\":{},\"protos\":{},\"canon\":{}", rules_on, dual, if protos == "h1h2" { "[\"HTTP1\",\"HTTP2\"]" } else if protos == "h2" { "[\"HTTP2\"]" } else { "[\"HTTP1\"]" }, canon));
             for _ in 0..waves {
                 let picks: Vec<&'static str> = (0..width).map(|_| kinds[rng.gen_range(0..kinds.len())]).collect();
                 let hs: Vec<_> = picks.iter().map(|k| {
@@ -297,7 +309,7 @@ fn main() {
                     rep.eval();
                     let (k, outcome) = h.join().unwrap_or(("?", Err("client thread panicked".into())));
                     rep.nontrivial(format!("wave|{}|{}|{}", rules_on, dual, k));
-                    if !expected(k, rules_on, &outcome) {
+                    if !expected(k, rules_on, protos, &outcome) {
                         rep.violation_with(format!("endpoint:client-view:{}:{}{}:concurrent", k, if rules_on { "rules" } else { "norules" }, if dual { ":dual" } else { "" }), format!("client saw {:?}", outcome), || json!({"kind": k, "rules": rules_on, "dual": dual, "wave": picks}));
                     }
                 }
